@@ -173,5 +173,9 @@ func (p *Protocol) downloadBlockFromPeerOld(height int64, pid peer.ID) (*types.B
 	if !ok || blockData == nil || blockData.Block == nil {
 		return nil, fmt.Errorf("invalid block data in response")
 	}
+	// 对端返回的区块高度必须是请求的高度
+	if blockData.Block.GetHeight() != height {
+		return nil, fmt.Errorf("block height %d in response, want %d", blockData.Block.GetHeight(), height)
+	}
 	return blockData.Block, nil
 }
